@@ -24,6 +24,7 @@ REGISTRY = {
     "C15": "c15",
     "C17": "c17",
     "C18": "c18",
+    "C19": "c19",
     "C20": "c20",
 }
 
